@@ -144,8 +144,9 @@ class Replay:
             bv = min(vals)
             bi = vals.index(bv)
             others = sorted(vals)
-            if len(others) > 1 and abs(float(others[1]) - float(others[0])) <= FRAG * max(1.0, abs(float(bv))) and others[1] != others[0]:
-                self.fr.notes.append("idxmin near-tie")
+            if len(others) > 1 and abs(float(others[1]) - float(others[0])) <= FRAG * max(1.0, abs(float(bv))):
+                # two stored classifiers (nearly or exactly) tie for the minimum: float rounding decides which index idxmin returns
+                self.fr.notes.append("idxmin tie" if others[1] == others[0] else "idxmin near-tie")
                 self.fr.detail.append(("idxmin", float(others[0]), float(others[1]) - float(others[0]), float(others[1]-others[0])))
             if self.fr.lt(hv, bv - PREC, "best_h improvement"):
                 self.hs.append(h)
@@ -250,7 +251,7 @@ class Replay:
         self.best_iter = kept[-1]
         self.best_gap = self.gaps[self.best_iter]
         w = self.qs[self.best_iter]
-        self.weights = [w[i] if i < len(w) else F(0) for i in range(len(self.hs))]
+        self.weights = list(w) + [F(0)] * max(0, len(self.hs) - len(w))     # zero padding to every stored classifier
         self.fragile = sorted(set(self.fr.notes))
 
 
